@@ -202,16 +202,39 @@ def iso_doc(rg):
             parts.append('\\[ x \\%s y \\] ' % rg.choice(sig))
         else:
             parts.append('{\\%s w} ' % rg.choice(sig))
+    if rg.random() < 0.3:
+        # definitions and uses (also before the definition, with another number of groups)
+        n = rg.choice(['zz', 'R', 'pair'])
+        parts.insert(rg.randrange(len(parts) + 1), rg.choice([
+            '\\newcommand{\\%s}[2]{a #1 b} ' % n, '\\newcommand{\\%s}{c} ' % n, '\\renewcommand{\\%s}[1][d]{e} ' % n]))
+        parts.insert(rg.randrange(len(parts) + 1), '\\%s%s ' % (n, rg.choice(['', '{u}', '{u}{v}{w}', ' [o]', '[o]{u}'])))
     return ''.join(parts)
+
+
+def module_state():
+    """every module-level container of the package (tables such as SIGNATURES, SKIP_ENV_NAMES, CATEGORY_CODES ...): a
+    parse must not write into them - whatever it leaves there is seen by every later parse of the process"""
+    import importlib
+    out = {}
+    for m in ('category', 'tokens', 'reader', 'data', 'utils', 'tex'):
+        mod = importlib.import_module('TexSoup.' + m)
+        for k, v in vars(mod).items():
+            if k.startswith('__') or not isinstance(v, (dict, list, set, frozenset, tuple)):
+                continue
+            try:
+                out[m + '.' + k] = repr(sorted(v, key=repr)) if isinstance(v, (set, frozenset)) else repr(v)
+            except Exception:       # noqa
+                out[m + '.' + k] = '?'
+    return out
 
 
 def interpreter_state():
     """settings of the interpreter that a parse has no business changing (they outlive the call and change what later
-    parses - of deeply nested documents, say - do)"""
+    parses - of deeply nested documents, say - do), and the module-level tables of the package"""
     import gc
     import locale
     import warnings
-    return {'recursionlimit': sys.getrecursionlimit(), 'switchinterval': sys.getswitchinterval(), 'gc': gc.isenabled(),
+    return {'module_tables': module_state(), 'recursionlimit': sys.getrecursionlimit(), 'switchinterval': sys.getswitchinterval(), 'gc': gc.isenabled(),
             'gc_threshold': gc.get_threshold(), 'locale': locale.setlocale(locale.LC_ALL), 'warnings': len(warnings.filters),
             'int_max_str_digits': sys.get_int_max_str_digits(), 'trace': sys.gettrace() is not None,
             'profile': sys.getprofile() is not None, 'cwd': os.getcwd(), 'environ': len(os.environ)}
